@@ -941,6 +941,21 @@ func (c *PolyCtx) lenOf(v ssa.Value) Poly {
 				}
 			}
 		}
+		// a local kept in memory (captured by a closure): the one assignment that can reach this read
+		if al, isAl := x.X.(*ssa.Alloc); isAl && x.Op == token.MUL && c.lenDepth < 3 {
+			var reach []*ssa.Store
+			for _, ref := range *al.Referrers() {
+				if st, ok := ref.(*ssa.Store); ok && st.Addr == ssa.Value(al) && InstrReaches(st, x) {
+					reach = append(reach, st)
+				}
+			}
+			if len(reach) == 1 && InstrDominates(reach[0], x) && !InstrReaches(x, reach[0]) {
+				c.lenDepth++
+				l := c.lenOf(reach[0].Val)
+				c.lenDepth--
+				return l
+			}
+		}
 	case *ssa.Call:
 		if b, ok := x.Call.Value.(*ssa.Builtin); ok && b.Name() == "append" {
 			// append(a, b...) : len(a)+len(b) when variadic spread of a slice
